@@ -704,6 +704,31 @@ def fold(pid):
                 if "CaseMapper" in g2.path and g2.path.endswith("::new") and short in ("map", "filter", "filter_map", "rev", "skip", "take", "zip", "flat_map"):
                     nl += 1
                     res.fail(Finding(res.rule, "R-FOLD/%s/table-transformed" % g2.path, "CaseMapper::new builds its map through .%s(..): the exception table is a list of (character, upper-case form) pairs and must be used as written" % short, g2, c2.term["span"]))
+        # an ASCII-only fold (`to_ascii_uppercase` on a char) leaves every non-ASCII letter as it is; in the general
+        # (non-ASCII) comparison path it may only be applied to a character found to be ASCII
+        for g2 in ctx.fx.fns.values():
+            if not (g2.path.startswith("internal::path::") and ("uppercase" in g2.path.lower() or "fold" in g2.path.lower() or "CaseMapper" in g2.path)):
+                continue
+            v2 = view(ctx, g2)
+            gg = None
+            for bb2, c2 in sorted(v2.calls.items()):
+                if not re.search(r"<impl char>::(to_ascii_uppercase|make_ascii_uppercase|to_ascii_lowercase)$", c2.name):
+                    continue
+                gg = gg or _guards(ctx, g2)
+                atoms = gg.atoms_at(("t", bb2))
+                from core import numeric as _numeric
+                ok_ = False
+                for a in atoms:
+                    if re.search(r"is_ascii\w*\(", a) and " is not " not in a and not a.startswith("!") and not a.startswith("(Not") and "is false" not in a:
+                        ok_ = True
+                    m_ = re.match(r"^\((Lt|Le)\((?:param|var):\w+(?: as u\d+)?,const:(\d+)\)\)$", _numeric(a))
+                    if m_ and int(m_.group(2)) <= 128:
+                        ok_ = True
+                n += 1
+                if ok_:
+                    res.ok({"function": g2.path, "ascii_fold_behind": "a test that the character is ASCII"}, nontrivial=True)
+                else:
+                    res.fail(Finding(res.rule, "R-FOLD/%s/ascii-fold-of-non-ascii" % g2.path, "%s applies an ASCII-only case fold to a character that was not found to be ASCII (conditions: %s): non-ASCII letters on that path keep their case (U+00B5 MICRO SIGN upper-cases to U+039C), so names equal up to case become distinct" % (g2.path.split("::")[-1], "; ".join(x[:60] for x in atoms[:3]) or "none"), g2, c2.term["span"]))
         res.floor("folded returns", n, ctx.table("floors").get("fold_returns", 0))
         return res
     return run
@@ -1306,6 +1331,261 @@ def difatcap(pid):
                     else:
                         res.ok({"function": f.path, "line": st["span"]["line"], "divisor": b[:100], "entries_per_sector": list(got)}, nontrivial=True)
         res.floor("DIFAT index splits", n, ctx.table("floors").get("difatcap_sites", 0))
+        return res
+    return run
+
+
+def nochild(pid):
+    """R-NOCHILD (invariant I-STREAM-NOCHILD): lookups walk `entry.child` of whatever entry a path component resolved
+    to, and Directory::validate only follows the links it is shown; both rest on "a stream entry has no child", which
+    DirEntry::read_from establishes for every mode: every Ok return for an entry of type Stream lies behind the test
+    that found the child field equal to NO_STREAM (or behind its replacement by that constant).  A permissive-only
+    tolerance here hands an unvalidated index to the lookup (index out of range, or a walk through a cycle)."""
+    NO_STREAM = 0xFFFFFFFF
+
+    def run(ctx):
+        res = RuleResult("R-NOCHILD(%s)" % pid, "every Ok return of DirEntry::read_from for a Stream entry lies behind `child == NO_STREAM` (or the replacement of the child by NO_STREAM), in every validation mode")
+        f = ctx.fx.fns.get("internal::direntry::DirEntry::read_from")
+        if f is None:
+            res.gone.append("DirEntry::read_from")
+            return res
+        v = view(ctx, f)
+        pg = v.pg
+        g = _guards(ctx, f)
+        from rules_sink import _edge_label
+        oks = []
+        cands = set()
+        for bb, blk in enumerate(f.blocks):
+            if blk["cleanup"]:
+                continue
+            for i, st in enumerate(blk["stmts"]):
+                if st["s"] != "assign":
+                    continue
+                if st["place"]["local"] == 0 and not st["place"]["proj"] and st["rv"]["r"] == "aggregate" and st["rv"].get("variant") == "Ok":
+                    oks.append((("s", bb, i), st))
+                if st["rv"]["r"] == "aggregate" and str(st["rv"].get("adt", "")).endswith("DirEntry"):
+                    for nm_, op in zip(st["rv"].get("fields") or [], st["rv"].get("ops") or []):
+                        if nm_ == "child" and op["k"] in ("copy", "move") and not op["place"]["proj"]:
+                            cands.add(op["place"]["local"])
+        for l, nm_ in f.debug_names().items():
+            if re.match(r"^child(__\d+)?$", nm_ or ""):
+                cands.add(l)
+        # copies of the candidates (a `let child = ..;` re-binding)
+        changed = True
+        while changed:
+            changed = False
+            for blk in f.blocks:
+                for st in blk["stmts"]:
+                    if st["s"] == "assign" and not st["place"]["proj"] and st["rv"]["r"] == "use" and st["rv"]["op"]["k"] in ("copy", "move") and not st["rv"]["op"]["place"]["proj"]:
+                        a, b = st["place"]["local"], st["rv"]["op"]["place"]["local"]
+                        if a in cands and b not in cands and f.locals[b]["s"] == "u32":
+                            cands.add(b); changed = True
+                        # a compiler temporary that holds a copy of the field for one comparison
+                        if b in cands and a not in cands and f.locals[a]["s"] == "u32" and a not in f.debug_names():
+                            cands.add(a); changed = True
+        barrier = set()
+        ntests = 0
+        for b, blk in enumerate(f.blocks):
+            if blk["cleanup"]:
+                continue
+            for i, st in enumerate(blk["stmts"]):
+                # child = NO_STREAM
+                if st["s"] == "assign" and not st["place"]["proj"] and st["place"]["local"] in cands and st["rv"]["r"] == "use" and st["rv"]["op"]["k"] == "const" and st["rv"]["op"].get("val") == NO_STREAM:
+                    barrier.add(("s", b, i))
+            t = blk["term"]
+            if t["t"] != "switch" or t["discr"]["k"] not in ("copy", "move") or t["discr"]["place"]["proj"]:
+                continue
+            dl = t["discr"]["place"]["local"]
+            rel = None
+            for st in blk["stmts"]:
+                if st["s"] == "assign" and not st["place"]["proj"] and st["place"]["local"] == dl and st["rv"]["r"] == "binop" and st["rv"]["op"] in ("Eq", "Ne"):
+                    ops = (st["rv"]["a"], st["rv"]["b"])
+                    for x, y in (ops, ops[::-1]):
+                        if x["k"] in ("copy", "move") and not x["place"]["proj"] and x["place"]["local"] in cands and y["k"] == "const" and y.get("val") == NO_STREAM:
+                            rel = st["rv"]["op"]
+            if rel is None:
+                continue
+            ntests += 1
+            arms = dict((int(v_), tg) for v_, tg in t["arms"])
+            eq_target = arms.get(0) if rel == "Ne" else t["otherwise"]
+            if rel == "Eq" and 1 in arms:
+                eq_target = arms[1]
+            if eq_target is not None:
+                barrier.update(pg.edge_node(b, eq_target))
+        for b, blk in enumerate(f.blocks):
+            if blk["cleanup"] or blk["term"]["t"] != "switch":
+                continue
+            for k, tgt in enumerate(f.succ(b)):
+                val, vals = _edge_label(f, b, k)
+                for a in g.describe_all(b, val, vals):
+                    if re.search(r" is not ObjType::Stream$", a) or (re.search(r" is ObjType::(\w+)$", a) and not a.endswith("::Stream")):
+                        barrier.update(pg.edge_node(b, tgt))
+        reach = pg.reach([pg.entry()], barrier)
+        bad = [st for (node, st) in oks if node in reach]
+        if bad:
+            res.fail(Finding(res.rule, "R-NOCHILD/%s/stream-with-child" % f.path, "a stream entry can reach the Ok return of read_from without its child field having been found equal to NO_STREAM: path lookups read `.child` of whatever entry a component resolved to and Directory::validate only follows the links of storages, so a damaged file hands an unvalidated index (or a cycle) to exists() / open_stream()", f, bad[0]["span"]))
+        elif oks:
+            res.ok({"function": f.path, "child_variables": len(cands), "no_stream_tests": ntests, "ok_returns": len(oks)}, nontrivial=True)
+        res.floor("Ok returns of read_from", len(oks), ctx.table("floors").get("nameinv_oks", 0))
+        res.floor("tests of the child field against NO_STREAM", ntests, ctx.table("floors").get("nochild_tests", 0))
+        return res
+    return run
+
+
+def predwalk(pid):
+    """R-PREDWALK: Directory::remove_dir_entry re-links step by step, each link written to the file first; a step that
+    fails leaves the earlier steps done, and the caller may repeat the call.  After the step `predecessor.right :=
+    removed.right` the search for the in-order predecessor (walk right links from the removed entry's left child until
+    NO_STREAM) would run on into the subtree just adopted, pick an entry of the RIGHT subtree and link it to itself:
+    every later listing, walk or lookup below that storage loops forever (defect D21b).  So the walk also stops where
+    the link it follows equals the removed entry's own right link.  Decided as: every loop of remove_dir_entry that
+    leaves on `entry(W).right_sibling == NO_STREAM` for a loop-carried W also has an exit on
+    `entry(W).right_sibling == <a value that is not a constant>`."""
+    from cfg import natural_loops
+    from rules_sink import _edge_label
+
+    def run(ctx):
+        res = RuleResult("R-PREDWALK(%s)" % pid, "the predecessor search of remove_dir_entry stops at the removed entry's own right link as well as at NO_STREAM (a repeated removal must not walk into a subtree the first attempt already moved)")
+        f = ctx.fx.fns.get("internal::directory::Directory::<F>::remove_dir_entry")
+        if f is None:
+            res.gone.append("Directory::remove_dir_entry")
+            return res
+        g = _guards(ctx, f)
+        n = 0
+        for (header, body, back) in natural_loops(f):
+            walks = {}
+            for b in body:
+                blk = f.blocks[b]
+                if blk["cleanup"] or blk["term"]["t"] != "switch":
+                    continue
+                for k, tgt in enumerate(f.succ(b)):
+                    val, vals = _edge_label(f, b, k)
+                    for a in g.describe_all(b, val, vals):
+                        m = re.match(r"^\(Eq\(Directory::dir_entry\(param:self,(var:\w+)\)\.right_sibling,(.*)\)\)$", a)
+                        if m:
+                            walks.setdefault(m.group(1), []).append((m.group(2), tgt not in body, blk["term"]["span"]))
+            for w, tests in walks.items():
+                if not any(re.match(r"^const:(\w+::)*(NO_STREAM|4294967295)", rhs) and leaves for (rhs, leaves, _) in tests):
+                    continue
+                # only a walk that moves: W is assigned inside the loop
+                names = {nm: l for l, nm in f.debug_names().items()}
+                l = names.get(w[4:])
+                pr = Prov(f)
+                if l is None or not any(d[0] in body for d in pr.defs.get(l, [])):
+                    continue
+                n += 1
+                if any(not rhs.startswith("const:") for (rhs, leaves, _) in tests):
+                    res.ok({"function": f.path, "walk_variable": w, "also_stops_at": [rhs[:80] for (rhs, _, _) in tests if not rhs.startswith("const:")][:1]}, nontrivial=True)
+                else:
+                    res.fail(Finding(res.rule, "R-PREDWALK/%s/walk-runs-into-adopted-subtree" % f.path, "the search for the in-order predecessor follows right links of %s until NO_STREAM only: when a removal failed after the predecessor had adopted the removed entry's right subtree and is repeated, the search walks on into that subtree, and the entry it picks is linked to itself - every later listing or lookup below the storage never returns" % w, f, tests[0][2]))
+        res.floor("predecessor walks", n, ctx.table("floors").get("predwalk_sites", 0))
+        return res
+    return run
+
+
+def repairfirst(pid):
+    """R-REPAIRFIRST: under permissive validation Allocator::validate REPAIRS the cells of FAT and DIFAT sectors that
+    are not marked as such (it stores FAT_SECTOR / DIFAT_SECTOR over whatever the cell held); what the cell held is
+    thereby discarded.  The link checks of the same function (range of every pointee, no sector pointed to twice) read
+    every cell, so they must run on the repaired table: no repair store may be reachable after the pointee bookkeeping
+    has begun - otherwise the stale content of an unmarked cell (two zero-filled FAT sectors both 'point to' sector 0)
+    gets a tolerated file refused."""
+    FATSECT, DIFSECT = 0xFFFFFFFD, 0xFFFFFFFC
+
+    def run(ctx):
+        res = RuleResult("R-REPAIRFIRST(%s)" % pid, "in Allocator::validate every store that repairs a FAT / DIFAT sector marker precedes the pointee checks that read the whole table")
+        f = ctx.fx.fns.get("internal::alloc::Allocator::<F>::validate")
+        if f is None:
+            res.gone.append("Allocator::validate")
+            return res
+        v = view(ctx, f)
+        pg = v.pg
+        pr = Prov(f)
+        repairs = []
+        for b, blk in enumerate(f.blocks):
+            if blk["cleanup"]:
+                continue
+            for i, st in enumerate(blk["stmts"]):
+                if st["s"] == "assign" and st["place"]["proj"] and st["rv"]["r"] == "use" and any(e["p"] == "deref" for e in st["place"]["proj"]):
+                    from core import numeric as _numeric
+                    val_ = _numeric(pr.operand(st["rv"]["op"]))
+                    if re.match(r"^const:(%d|%d)(_u32)?$" % (FATSECT, DIFSECT), val_):
+                        repairs.append((("s", b, i), st))
+        inserts = [c for c in v.calls.values() if re.search(r"HashSet<.*>::insert$|::insert$", c.name) and "Vec" not in c.name]
+        for (node, st) in repairs:
+            late = [c for c in inserts if node in pg.reach_after(("t", c.bb))]
+            if late:
+                res.fail(Finding(res.rule, "R-REPAIRFIRST/%s/repair-after-link-check" % f.path, "the marker of a FAT / DIFAT sector is repaired (line %d) after the pointee checks have read the table (set insertion at line %d): the stale content of an unmarked cell is judged as a link, and a file with a tolerated deviation (unmarked FAT / DIFAT sectors) is refused under permissive validation" % (st["span"]["line"], late[0].line), f, st["span"]))
+            else:
+                res.ok({"function": f.path, "repair_line": st["span"]["line"], "before_pointee_checks": True}, nontrivial=True)
+        res.floor("marker repairs", len(repairs), ctx.table("floors").get("repairfirst_sites", 0))
+        return res
+    return run
+
+
+def linkend(pid):
+    """R-LINKEND: extend_chain / extend_mini_chain give a chain one more sector by overwriting the cell of its LAST
+    sector with the id of a freshly allocated one.  Overwriting any other cell cuts the chain there: what followed
+    stays allocated and belongs to nothing (a leak per call - C15 - and, for a regular chain, sectors no owner reaches -
+    C03).  So the cell that receives the link was found to hold END_OF_CHAIN in the same function (the walk to the end
+    of the chain), or - when the function trusts its argument - every caller passes the last element of the chain's own
+    id list, read at the call."""
+    rows = [("internal::alloc::Allocator::<F>::extend_chain", r"Allocator::<F>::set_fat$", r"Allocator::<F>::allocate_sector"),
+            ("internal::minialloc::MiniAllocator::<F>::extend_mini_chain", r"MiniAllocator::<F>::set_minifat$", r"MiniAllocator::<F>::allocate_mini_sector")]
+
+    def run(ctx):
+        res = RuleResult("R-LINKEND(%s)" % pid, "the FAT / MiniFAT cell that receives the link to a newly allocated sector was found to hold END_OF_CHAIN (or every caller passes the last id of the chain's own list)")
+        n = 0
+        for (fpath, setter, allocator) in rows:
+            f = ctx.fx.fns.get(fpath)
+            if f is None:
+                res.gone.append(fpath)
+                continue
+            v = view(ctx, f)
+            pr = Prov(f)
+            g = _guards(ctx, f)
+            for bb, c in sorted(v.calls.items()):
+                if not re.search(setter, c.name) or len(c.term["args"]) < 3:
+                    continue
+                val = pr.operand(c.term["args"][2])
+                if not re.search(allocator.replace("::<F>::", "::"), val):
+                    continue
+                n += 1
+                cell = pr.operand(c.term["args"][1])
+                atoms = g.atoms_at(("t", bb))
+                ok_ = any(re.match(r"^\(Eq\((.*),const:(\w+::)*END_OF_CHAIN\)\)$", a) and cell in a for a in atoms)
+                why = "the cell was found to hold END_OF_CHAIN"
+                if not ok_ and cell.startswith("param:"):
+                    # the function trusts its argument: every caller must pass the last id of its own list
+                    callers = []
+                    for f2 in ctx.fx.fns.values():
+                        for c2 in ctx.cg.calls[f2.path]:
+                            if c2.kind == "call" and any(t.path == f.path for t in c2.targets):
+                                callers.append((f2, c2))
+                    names = {nm: l for l, nm in f.debug_names().items()}
+                    idx = names.get(cell[6:])
+                    good = bool(callers) and idx is not None
+                    for (f2, c2) in callers:
+                        if not good:
+                            break
+                        a2 = Prov(f2).operand(c2.term["args"][idx - 1]) if idx - 1 < len(c2.term["args"]) else ""
+                        if not re.search(r"last\(.*sector_ids\)", a2):
+                            good = False
+                            break
+                        # ... read at the call: when the call sits in a loop, so does the `last()` it is fed from
+                        from cfg import natural_loops as _nl
+                        for (h_, body_, _) in _nl(f2):
+                            if c2.bb in body_:
+                                lasts = [x for x in ctx.cg.calls[f2.path] if x.kind == "call" and x.name.split("::")[-1] == "last" and x.bb in body_]
+                                if not lasts:
+                                    good = False
+                    ok_ = good
+                    why = "every caller passes the last id of the chain's own id list"
+                if ok_:
+                    res.ok({"function": fpath, "cell": cell[:60], "why": why}, nontrivial=True)
+                else:
+                    res.fail(Finding(res.rule, "R-LINKEND/%s/link-stored-in-a-cell-not-known-to-be-the-end" % fpath, "%s stores the id of a newly allocated sector in the cell of %s, which was not found to hold END_OF_CHAIN (conditions: %s): when that sector is not the last of its chain, the chain is cut there and everything behind it stays allocated without an owner - a net-zero cycle grows the file" % (fpath.split("::")[-1], cell[:50], "; ".join(a[:60] for a in atoms[:3]) or "none"), f, c.term["span"]))
+        res.floor("link stores of the extend functions", n, ctx.table("floors").get("linkend_sites", 0))
         return res
     return run
 
